@@ -139,10 +139,10 @@ def run(eng, R):
             tgt_call = [c for c in ast.walk(items["x"]) if isinstance(c, ast.Call) and isinstance(c.func, ast.Attribute) and c.func.attr == "_find_cost_cut"]
             tc = next((k.value for c in tgt_call for k in c.keywords if k.arg == "target_cost"), None)
             tnorm = N.norm(tc).canon() if tc is not None else "?"
-            sig = N.norm(ast.parse("ConfidenceLevel(cl=%s).sigma" % ast.unparse(clarg), mode="eval").body).canon() if clarg is not None else "?"
+            sig = Normalizer().norm(ast.parse("ConfidenceLevel(cl=%s).sigma" % ast.unparse(clarg), mode="eval").body).canon() if clarg is not None else "?"  # clarg is already inlined
             want_t = "min_cost + %s^2" % sig
             R.ob("S-side", "_get_arrow_specs:%s:%s:target" % (side, "one-sided" if other_given else "central"), _same_sum(tnorm, want_t), (ga.file, app.lineno),
-                 "the arrow position is searched at cost %s, expected minimum + sigma^2" % tnorm)
+                 "the arrow position is searched at cost %s, expected minimum + sigma^2 (%s)" % (tnorm, want_t))
     if n_branches < 4:
         raise AnalysisError("_get_arrow_specs: expected 4 confidence-level branches (left/right x central/one-sided), found %d" % n_branches)
 
